@@ -123,14 +123,15 @@ Qed.
 
 Lemma meets_align c addr : meets enc (SAlign c) addr (observe (emit enc (embed (SAlign c)) addr)) = true.
 Proof.
-  cbn [embed]. destruct (Z_lt_ge_dec c 0) as [L|L]; [|destruct (Z.eq_dec c 0) as [Z0|Z0]].
-  - rewrite (align_negative enc c addr L). simpl. lia.
+  cbn [embed]. destruct (Z_lt_ge_dec c 0) as [L|L]; [|destruct (Z.eq_dec c 0) as [Z0|Z0]; [|destruct (Z_lt_ge_dec c 65536) as [U|U]]].
+  - rewrite (align_refuse enc c addr (or_introl L)). simpl. lia.
   - subst c. rewrite align_zero. reflexivity.
-  - assert (Hc : 1 <= c) by lia. rewrite (align_pos enc c addr Hc).
+  - assert (Hc : 1 <= c) by lia. rewrite (align_pos enc c addr (conj Hc U)).
     destruct (align_least c addr Hc) as [Hk [H0 _]].
     cbn [observe existsb meets must_refuse allowed]. unfold zero_bytes. rewrite all_zero_repeat, zlen_repeat.
     rewrite Z2Nat.id by lia. rewrite H0.
-    replace (c <=? 0) with false by lia. replace ((- addr) mod c <? c) with true by lia. reflexivity.
+    replace ((c <=? 0) || (65536 <=? c)) with false by lia. replace ((- addr) mod c <? c) with true by lia. reflexivity.
+  - rewrite (align_refuse enc c addr ltac:(lia)). simpl. lia.
 Qed.
 
 Theorem model_meets_spec d addr : meets enc d addr (observe (emit enc (embed d) addr)) = true.
